@@ -120,7 +120,7 @@ func decodeEl(o slip.Object, sh byte) (e el, ok bool) {
 	case 'c':
 		var c slip.Character
 		c, ok = o.(slip.Character)
-		e.ch = rune(c)
+		e.ch = narrow(rune(c))
 	case 'p':
 		l, isList := o.(slip.List)
 		if !isList || len(l) != 2 {
@@ -152,7 +152,7 @@ func decodeSeq(o slip.Object, sh byte) *decoded {
 	case slip.String:
 		d.typ = 'S'
 		for _, r := range string(v) {
-			d.els = append(d.els, el{ch: r})
+			d.els = append(d.els, el{ch: narrow(r)})
 		}
 		return d
 	default:
